@@ -9,6 +9,8 @@ use std::sync::{Arc, Mutex};
 use std::task::{Context, Poll, Waker};
 use tokio::io::{AsyncRead, AsyncWrite, ReadBuf};
 
+pub mod msgs;
+
 /// Choices / trace / stats shared by every task of one run (single thread; the
 /// mutex is never contended, it only makes the handle `Send`).
 pub struct Shared {
